@@ -69,3 +69,41 @@ Proof.
     - rewrite forallb_forall in Hwf. specialize (Hwf _ Hx). discriminate. }
   apply H. intros y Hy. exact Hy.
 Qed.
+
+(** * Every check-accepted document gets a runtime document for every definition
+
+    [check] (crates/checker) is not modelled here; it enters as an oracle.  What the theorem needs from it is
+    validation rule 5.5.2.1 on the *whole* document — every fragment spread, also inside a fragment that no
+    operation spreads, names a defined fragment ([spreads_defined_b]).  /repo c67e45e made the real checker
+    enforce exactly that (fragments nothing spreads are checked on their own); the correspondence run tests
+    the hypothesis on every document the real [check] accepts ([Corr.holds]: accepted implies
+    [spreads_defined_b]) and keeps producing accepted documents extended by an offending unspread fragment,
+    which must be rejected. *)
+Section AcceptedDocuments.
+  Variable check : list execdef -> bool.
+  Hypothesis check_enforces_defined_spreads :
+    forall defs, check defs = true -> spreads_defined_b defs = true.
+
+  Theorem accepted_document_denotes d :
+    check (od_defs d) = true -> forallb wf_def (od_defs d) = true ->
+    (exists ts, document_runtime_texts d = Ok ts /\ length ts = length (od_defs d))
+    /\ (forall o, In (DOp o) (od_defs d) ->
+         exists t names fs,
+           runtime_text (od_defs d) (DOp o) = Ok t
+           /\ read_document t = Some (erase_op o :: map erase_frag fs)
+           /\ Forall2 (fun n f => get_frag (od_defs d) n = Some f) names fs
+           /\ NoDup names
+           /\ forall n, In n names <-> reach (get_frag (od_defs d)) (op_sel o) n)
+    /\ (forall f, In (DFrag f) (od_defs d) ->
+         exists t names fs,
+           runtime_text (od_defs d) (DFrag f) = Ok t
+           /\ read_document t = Some (erase_frag f :: map erase_frag fs)
+           /\ Forall2 (fun n g => get_frag (od_defs d) n = Some g) names fs
+           /\ NoDup names
+           /\ forall n, In n names <-> (reach (get_frag (od_defs d)) (fr_sel f) n /\ n <> iname (fr_name f))).
+  Proof.
+    intros Hc Hwf. apply check_enforces_defined_spreads in Hc.
+    split; [now apply document_texts_total|].
+    split; [intros o Hin; now apply operation_text_denotes|intros f Hin; now apply fragment_text_denotes].
+  Qed.
+End AcceptedDocuments.
